@@ -981,15 +981,14 @@ pub fn long_counts(ctx: &Ctx, want: &str) -> Report {
 }
 
 /// a parameter written a power-of-two number of times between two ticks of a running phase (a wrapped write
-/// counter would make the last write invisible): 2^8 / 2^16 / 2^20 in the quick tier, 2^31 / 2^32 in the thorough tier
+/// counter would make the last write invisible): 2^8, 2^16, 2^20, 2^31 and 2^32 writes (+0 and +1)
 pub fn set_storms(ctx: &Ctx, want: &str) -> Report {
     if ctx.tier == Tier::Small {
         return Report::new();
     }
-    let mut totals: Vec<u64> = vec![256, 65_536, 1 << 20];
-    if ctx.tier == Tier::Thorough {
-        totals.extend([1u64 << 31, 1 << 32]);
-    }
+    // (the write loop has no observable effect but the last write, so the compiler folds it: even 2^32 writes cost
+    // nothing, and a wrapping write counter in the envelope is folded to `+= n` alike - the wrap is still exercised)
+    let totals: Vec<u64> = vec![256, 65_536, 1 << 20, 1 << 31, 1 << 32];
     let mut jobs: Vec<(u64, u8)> = Vec::new();
     for t in &totals {
         for d in [0u64, 1] {
